@@ -69,6 +69,15 @@ def oracle_fails(pid, rec):
 NOT_APPLICABLE = {}
 
 PROPS = {
+    "C10": {
+        "rule": "generated templates with every writing construct (text, output tags, raw, cycle, increment/decrement, tablerow, ifchanged, capture, include/render of two partials, nested in loops, conditionals and case), a quarter of them with constructs that fail at render time; for each, a counting sink measures the W raw write calls of the fault-free run, then the render is repeated failing at EVERY k in 1..W and again accepting half of the k-th write before failing; non-trivial = distinct (template,data) with W >= 1",
+        "explanation": "Lean theorems C10_* (prefix theorem for every template / start state / k via the sink simulation proved by the interpreter induction; accepted output is a prefix as fragments and as text; failing sink => the sink error; streamed = buffered; short writes; empty writes are free; generated table of write sites all propagate errors) + differential run: fault-free result and fragment structure against the model, and the spec (error, clean prefix ending exactly at the failing write, no write after the failure, no panic) evaluated on every fault run of the real crate",
+        "exhaustive": False,
+        "manifest_text": "Lean 4 theorem C10_prefix, proved for EVERY template, partial store, start runtime and failure index k by a generic induction principle over the render interpreter: against a sink that accepts only k writes the render returns the sink error having had exactly the first k fragments of the fault-free trace accepted and writes nothing afterwards, and behaves exactly like the fault-free run when k is large enough; corollaries: accepted output is always a prefix (fragments and text), streamed output = buffered render, short writes stay prefixes. A table of all write!() sites is regenerated from /repo on every run and proved (by decide) to propagate errors. Tied to /repo by failing the real render_to at every write index (and with short writes) of generated templates and checking error / exact prefix / no further writes, plus comparing the fault-free result and the write-site structure with the model.",
+        "manifest_note": "Trusted: Lean kernel + allowed axioms, theorem statements, hand-written interpreter model (validated differentially on this and six other properties). How core::fmt splits one write!() into write() calls is not modelled: the model's fragments are whole write!() sites and the correspondence checks that every site boundary is a raw chunk boundary of the real run. Filters inside output tags are not modelled in this property's generator (none used).",
+        "technique": "Lean 4 proof (simulation lemma lifted through the interpreter by a generic induction principle) + fault enumeration on the real sink",
+        "design_ref": "DESIGN.md section 7 C10",
+    },
     "C14": {
         "manifest_text": "Lean 4 theorems (36) about the model of the array filters (sort comparator after the fix: commit): sort, sort_natural and reverse return permutations of their input for every comparator; under a total-preorder hypothesis (proved for the repaired comparator on every mixture of integers/strings/booleans/dates/nils/markers, on floats with strings etc., and on floats with integers below 2^53) sort is sorted, stable, idempotent and nil-last, and any stable sorted permutation equals the model's (what ties std's sort_by to the model); sort_natural needs no hypothesis; uniq keeps exactly the first occurrences; compact removes exactly the nils; concat length is additive; map/where are filterMaps; first/last/size/slice/join agree with indexing; no modelled filter panics. Tied to /repo by exhaustive arrays of length 0..5 over the pool, random arrays up to 60 in every initial order incl. mixed incomparable types.",
         "manifest_note": "Trusted: Lean kernel + allowed axioms, theorem statements, hand-written model (validated differentially); std sort_by is assumed stable on consistent comparators (uniqueness theorem ties it to the model); str::to_lowercase is a parameter (table supplied by the driver). Residual genuine defect listed as known findings (exact inputs): partial_cmp is inconsistent inside one kind (integers >= 2^53 mixed with floats, dates mixed with date-times, arrays with incomparable members, objects), where std's sort_by may still panic; on inconsistent comparators only the spec (permutation, no panic) is consulted.",
